@@ -394,6 +394,15 @@ def bernoulliTF (dt : Float) (xs : List Float) (U : List (List Float)) : List (L
 def bernoulliInhomTF (dt : Float) (X U : List (List Float)) : List (List Bool) :=
   List.zipWith (fun xs row => List.zipWith (fun u x => decide (u < probF dt x)) row xs) X U
 
+/-- float32 copy of the Bernoulli encoders (torch computes `(inputs / 1000.0) * step_time` in the
+tensor's dtype, the Python scalars rounded to float32; `torch.bernoulli(p)` draws uniforms of
+`p`'s dtype — established by sample replay). -/
+def probF32 (dt x : Float32) : Float32 := let p := (x / 1000.0) * dt; if p > 1.0 then 1.0 else p
+def bernoulliTF32 (dt : Float32) (xs : List Float32) (U : List (List Float32)) : List (List Bool) :=
+  U.map fun row => List.zipWith (fun u x => decide (u < probF32 dt x)) row xs
+def bernoulliInhomTF32 (dt : Float32) (X U : List (List Float32)) : List (List Bool) :=
+  List.zipWith (fun xs row => List.zipWith (fun u x => decide (u < probF32 dt x)) row xs) X U
+
 end InfernoVerif.Enc
 
 /-! ## Specification demands (what the property requires of an output; printed by the driver,
